@@ -1,6 +1,142 @@
-//! C12: implementation-side case runners (see props/c12.py). Stub until the property is built.
+//! C12: ColorOptimizer::optimize and Buffer::render_to_rgba on documents described by the case (props/c12.py).
+//! doc := w h term  nslots {slot ansi_page}*  nextra {r g b}*  nlayers { visible alpha offx offy lw lh nset { x y ch fg bg attr page }* }*
+//! `opt <norm> doc`     -> w h  then per cell (row-major) the composite cell of the document (ch fg bg attr page)
+//!                          then per cell the raw cell of the optimised buffer's layer 0
+//! `rend <norm> doc`    -> eq(0/1) pw ph pw2 ph2  then the RGBA bytes of render_to_rgba(optimised)
+//! `rendeq <norm> doc`  -> eq(0/1) pw ph pw2 ph2 first_differing_byte_index(-1)
+//! `fontdump <k>`       -> w h n {packed rows as bytes…}: k < 100 ansi font page k; 100.. sauce font k-100; 99 viewdata
 use crate::Obs;
+use icy_engine::{AttributedChar, BitFont, Buffer, ColorOptimizer, Layer, Rectangle, SaveOptions, TextAttribute, TextPane};
 
-pub fn run(_kind: &str, _args: &[&str]) -> Option<Obs> {
-    None
+struct Rd<'a> {
+    a: &'a [&'a str],
+    i: usize,
+}
+impl<'a> Rd<'a> {
+    fn next(&mut self) -> i64 {
+        let v: i64 = self.a[self.i].parse().unwrap();
+        self.i += 1;
+        v
+    }
+}
+
+fn build(r: &mut Rd) -> Buffer {
+    let w = r.next() as i32;
+    let h = r.next() as i32;
+    let term = r.next() != 0;
+    let mut buf = Buffer::new((w, h));
+    buf.is_terminal_buffer = term;
+    buf.layers.clear();
+    for _ in 0..r.next() {
+        let slot = r.next() as usize;
+        let page = r.next() as usize;
+        buf.set_font(slot, BitFont::from_ansi_font_page(page).unwrap());
+    }
+    for _ in 0..r.next() {
+        let (cr, cg, cb) = (r.next() as u8, r.next() as u8, r.next() as u8);
+        buf.palette.insert_color_rgb(cr, cg, cb);
+    }
+    for _ in 0..r.next() {
+        let visible = r.next() != 0;
+        let alpha = r.next() != 0;
+        let offx = r.next() as i32;
+        let offy = r.next() as i32;
+        let lw = r.next() as i32;
+        let lh = r.next() as i32;
+        let mut l = Layer::new("l", (lw, lh));
+        for _ in 0..r.next() {
+            let x = r.next() as i32;
+            let y = r.next() as i32;
+            let ch = r.next() as u32;
+            let mut a = TextAttribute::new(r.next() as u32, r.next() as u32);
+            a.attr = r.next() as u16;
+            a.set_font_page(r.next() as usize);
+            l.set_char((x, y), AttributedChar::new(char::from_u32(ch).unwrap(), a));
+        }
+        l.properties.has_alpha_channel = alpha;
+        l.set_offset((offx, offy));
+        l.properties.is_visible = visible;
+        buf.layers.push(l);
+    }
+    buf
+}
+
+fn push_cell(out: &mut Vec<i64>, c: AttributedChar) {
+    out.push(c.ch as u32 as i64);
+    out.push(c.attribute.get_foreground() as i64);
+    out.push(c.attribute.get_background() as i64);
+    out.push(c.attribute.attr as i64);
+    out.push(c.attribute.get_font_page() as i64);
+}
+
+fn optimise(buf: &Buffer, norm: bool) -> Buffer {
+    let mut o = SaveOptions::default();
+    o.normalize_whitespaces = norm;
+    ColorOptimizer::new(buf, &o).optimize(buf)
+}
+
+pub fn run(kind: &str, args: &[&str]) -> Option<Obs> {
+    Some(match kind {
+        "opt" => {
+            let mut r = Rd { a: args, i: 0 };
+            let norm = r.next() != 0;
+            let buf = build(&mut r);
+            let opt = optimise(&buf, norm);
+            let mut out = vec![buf.get_width() as i64, buf.get_height() as i64];
+            for y in 0..buf.get_height() {
+                for x in 0..buf.get_width() {
+                    push_cell(&mut out, buf.get_char((x, y)));
+                }
+            }
+            out.push(opt.layers.len() as i64);
+            out.push(opt.get_width() as i64);
+            out.push(opt.get_height() as i64);
+            for y in 0..opt.get_height() {
+                for x in 0..opt.get_width() {
+                    push_cell(&mut out, opt.layers[0].get_char((x, y)));
+                }
+            }
+            Ok(out)
+        }
+        "rend" | "rendeq" => {
+            let mut r = Rd { a: args, i: 0 };
+            let norm = r.next() != 0;
+            let buf = build(&mut r);
+            let opt = optimise(&buf, norm);
+            let rect = Rectangle::from_min_size((0, 0), (buf.get_width(), buf.get_height()));
+            let (s1, p1) = buf.render_to_rgba(rect);
+            let rect2 = Rectangle::from_min_size((0, 0), (opt.get_width(), opt.get_height()));
+            let (s2, p2) = opt.render_to_rgba(rect2);
+            let mut out = vec![(p1 == p2) as i64, s1.width as i64, s1.height as i64, s2.width as i64, s2.height as i64];
+            if kind == "rend" {
+                out.extend(p2.iter().map(|b| *b as i64));
+            } else {
+                let d = p1.iter().zip(p2.iter()).position(|(a, b)| a != b).map_or(-1, |i| i as i64);
+                out.push(d);
+            }
+            Ok(out)
+        }
+        "fontdump" => {
+            let k: usize = args[0].parse().unwrap();
+            let f = if k == 99 {
+                BitFont::from_bytes("viewdata", icy_engine::VIEWDATA).unwrap()
+            } else if k < 99 {
+                BitFont::from_ansi_font_page(k).unwrap()
+            } else {
+                BitFont::from_sauce_name(icy_engine::SAUCE_FONT_NAMES[k - 100]).unwrap()
+            };
+            let mut out = vec![f.size.width as i64, f.size.height as i64, f.glyphs.len() as i64];
+            for c in 0..f.glyphs.len() as u32 {
+                match f.get_glyph(char::from_u32(c).unwrap()) {
+                    Some(g) => {
+                        out.push(g.data.len() as i64);
+                        out.extend(g.data.iter().map(|b| *b as i64));
+                    }
+                    None => out.push(-1),
+                }
+            }
+            Ok(out)
+        }
+        _ => return None,
+    })
 }
